@@ -869,4 +869,203 @@ example : dirichletFromGammas (([2, 4, 0] : List Rat).map (· / 4)) = [1/3, 2/3,
   refine ⟨?_, (dirichlet_valid_of_max_one _ (by norm_num) (by norm_num)).2.1⟩
   rw [dirichlet_max_shift _ 4 (by norm_num)]; norm_num [dirichletFromGammas]
 
+/-! ## joint certificates: "joint probability = product of table entries" as a literal statement -/
+
+/-- a box of draw vectors: one half-open interval per coordinate -/
+def inBox (box : List (Rat × Rat)) (us : List Rat) : Prop :=
+  box.length = us.length ∧ ∀ i, i < us.length → inIv (box.getD i (0, 0)) (us.getD i 0)
+
+def boxVol (box : List (Rat × Rat)) : Rat := (box.map (fun iv => iv.2 - iv.1)).prod
+
+/-- `f` maps exactly the draw vectors of the boxes (pairwise disjoint, inside the unit cube of dimension n) to `x` -/
+structure PreimageCertN {α : Type} (n : Nat) (f : List Rat → α) (x : α) (boxes : List (List (Rat × Rat))) : Prop where
+  mem : ∀ us : List Rat, us.length = n → (∀ u ∈ us, 0 ≤ u ∧ u < 1) → (f us = x ↔ ∃ b ∈ boxes, inBox b us)
+  wf : ∀ b ∈ boxes, b.length = n ∧ ∀ iv ∈ b, 0 ≤ iv.1 ∧ iv.1 ≤ iv.2 ∧ iv.2 ≤ 1
+  disjoint : boxes.Pairwise (fun a b => ∀ us, ¬ (inBox a us ∧ inBox b us))
+
+/-- `f` maps a set of draw vectors of volume `q` (a finite disjoint union of boxes) to `x` -/
+def SelectsJointly {α : Type} (n : Nat) (f : List Rat → α) (x : α) (q : Rat) : Prop :=
+  ∃ boxes, PreimageCertN n f x boxes ∧ (boxes.map boxVol).sum = q
+
+/-- the interval `[c_k, c_k + l_k)` of a row with entries ≥ 0 and sum 1 lies in `[0,1]` -/
+theorem mo_iv_wf (l : List Rat) (hnn : ∀ x ∈ l, 0 ≤ x) (hsum : l.sum = 1) (k : Nat) (hk : k < l.length) :
+    0 ≤ cum l k ∧ cum l k ≤ cum l k + l.getD k 0 ∧ cum l k + l.getD k 0 ≤ 1 := by
+  refine ⟨cum_nonneg l k hnn, ?_, ?_⟩
+  · have := mo_getD_nonneg l hnn k; linarith
+  · rw [← cum_succ_eq l k hk, ← hsum]; exact cum_le_sum l (k + 1) hnn
+
+theorem mo_inBox_two (a b c d u1 u2 : Rat) :
+    inBox [(a, b), (c, d)] [u1, u2] ↔ (a ≤ u1 ∧ u1 < b) ∧ (c ≤ u2 ∧ u2 < d) := by
+  unfold inBox inIv
+  constructor
+  · rintro ⟨_, h⟩
+    have h0 := h 0 (by simp)
+    have h1 := h 1 (by simp)
+    simpa using And.intro h0 h1
+  · rintro ⟨h0, h1⟩
+    refine ⟨rfl, ?_⟩
+    intro i hi
+    have hi' : i < 2 := hi
+    match i, hi' with
+    | 0, _ => simpa using h0
+    | 1, _ => simpa using h1
+
+/-- a two-draw sampler whose preimage of `x` in the unit square is one box -/
+theorem mo_jointly_two {α : Type} (f : List Rat → α) (x : α) (a b c d : Rat)
+    (hmem : ∀ u1 u2, 0 ≤ u1 → u1 < 1 → 0 ≤ u2 → u2 < 1 →
+      (f [u1, u2] = x ↔ (a ≤ u1 ∧ u1 < b) ∧ (c ≤ u2 ∧ u2 < d)))
+    (w1 : 0 ≤ a ∧ a ≤ b ∧ b ≤ 1) (w2 : 0 ≤ c ∧ c ≤ d ∧ d ≤ 1) :
+    SelectsJointly 2 f x ((b - a) * (d - c)) := by
+  refine ⟨[[(a, b), (c, d)]], ⟨?_, ?_, List.pairwise_singleton _ _⟩, ?_⟩
+  · intro us hlen hu
+    obtain ⟨u1, u2, rfl⟩ := List.length_eq_two.mp hlen
+    have h1 := hu u1 (by simp)
+    have h2 := hu u2 (by simp)
+    rw [hmem u1 u2 h1.1 h1.2 h2.1 h2.2]
+    simp only [List.mem_singleton, exists_eq_left, mo_inBox_two]
+  · intro bx hb
+    rw [List.mem_singleton] at hb; subst hb
+    refine ⟨rfl, ?_⟩
+    intro iv hiv
+    simp only [List.mem_cons, List.not_mem_nil, or_false] at hiv
+    rcases hiv with rfl | rfl
+    · exact w1
+    · exact w2
+  · simp [boxVol]
+
+/-- **J5** dense POMDP model: the pair (next state `s1`, observation `o`) is selected with joint
+    probability `T(s,a,s1) · O(s1,a,o)` -/
+theorem sampleSOR_selects_jointly (T O : Nat → Nat → List Rat) (R : Nat → Nat → Rat) (s a s1 o : Nat)
+    (hnnT : ∀ x ∈ T a s, 0 ≤ x) (hsumT : (T a s).sum = 1)
+    (hnnO : ∀ x ∈ O a s1, 0 ≤ x) (hsumO : (O a s1).sum = 1)
+    (hs1 : s1 < (T a s).length) (ho : o < (O a s1).length) :
+    SelectsJointly 2
+      (fun us => ((sampleSOR T O R s a (us.getD 0 0) (us.getD 1 0)).1,
+        (sampleSOR T O R s a (us.getD 0 0) (us.getD 1 0)).2.1))
+      (s1, o) ((T a s).getD s1 0 * (O a s1).getD o 0) := by
+  obtain ⟨boxes, c, hv⟩ := mo_jointly_two
+    (fun us => ((sampleSOR T O R s a (us.getD 0 0) (us.getD 1 0)).1,
+        (sampleSOR T O R s a (us.getD 0 0) (us.getD 1 0)).2.1)) (s1, o)
+    (cum (T a s) s1) (cum (T a s) s1 + (T a s).getD s1 0)
+    (cum (O a s1) o) (cum (O a s1) o + (O a s1).getD o 0)
+    (fun u1 u2 a1 a2 b1 b2 => by
+      rw [← sampleSOR_box T O R s a s1 o u1 u2 hnnT hsumT hnnO hsumO a1 a2 b1 b2 hs1 ho]
+      simp only [List.getD_cons_zero, List.getD_cons_succ, Prod.mk.injEq])
+    (mo_iv_wf _ hnnT hsumT s1 hs1) (mo_iv_wf _ hnnO hsumO o ho)
+  exact ⟨boxes, c, hv.trans (by ring)⟩
+
+/-- test (J5): T = (1/4, 3/4), O = (1/2, 1/2): the pair (1, 1) has joint probability 3/8 -/
+example : SelectsJointly 2
+    (fun us => ((sampleSOR (fun _ _ => [1/4, 3/4]) (fun _ _ => [1/2, 1/2]) (fun _ _ => 0) 0 0 (us.getD 0 0) (us.getD 1 0)).1,
+      (sampleSOR (fun _ _ => [1/4, 3/4]) (fun _ _ => [1/2, 1/2]) (fun _ _ => 0) 0 0 (us.getD 0 0) (us.getD 1 0)).2.1))
+    (1, 1) (3/8) := by
+  have := sampleSOR_selects_jointly (fun _ _ => [1/4, 3/4]) (fun _ _ => [1/2, 1/2]) (fun _ _ => 0) 0 0 1 1
+    (by norm_num) (by norm_num) (by norm_num) (by norm_num) (by simp) (by simp)
+  norm_num at this
+  exact this
+
+/-- **J7** stored-row POMDP model: the pair (column stored at position `k1`, column stored at position
+    `k2` of that state's observation row) is selected with joint probability the product of the two
+    stored values -/
+theorem sampleSORSparse_selects_jointly (S O : Nat) (T Ob : Nat → Nat → List (Nat × Rat))
+    (R : Nat → Nat → Rat) (s a : Nat) (k1 k2 : Nat) (hk1 : k1 < (T a s).length)
+    (hk2 : k2 < (Ob a ((T a s)[k1]).1).length)
+    (hsT : (T a s).Pairwise (fun p q => p.1 < q.1)) (hnnT : ∀ e ∈ T a s, 0 ≤ e.2)
+    (hsumT : ((T a s).map (·.2)).sum = 1)
+    (hsO : (Ob a ((T a s)[k1]).1).Pairwise (fun p q => p.1 < q.1))
+    (hnnO : ∀ e ∈ Ob a ((T a s)[k1]).1, 0 ≤ e.2)
+    (hsumO : ((Ob a ((T a s)[k1]).1).map (·.2)).sum = 1) :
+    SelectsJointly 2
+      (fun us => ((sampleSORSparse S O T Ob R s a (us.getD 0 0) (us.getD 1 0)).1,
+        (sampleSORSparse S O T Ob R s a (us.getD 0 0) (us.getD 1 0)).2.1))
+      (((T a s)[k1]).1, ((Ob a ((T a s)[k1]).1)[k2]).1)
+      (((T a s)[k1]).2 * ((Ob a ((T a s)[k1]).1)[k2]).2) := by
+  have w1 := mo_iv_wf _ (vals_nonneg _ hnnT) hsumT k1 (by simpa using hk1)
+  have w2 := mo_iv_wf _ (vals_nonneg _ hnnO) hsumO k2 (by simpa using hk2)
+  have e1 : ((T a s).map (·.2)).getD k1 0 = ((T a s)[k1]).2 := by
+    simp [List.getD_eq_getElem?_getD, hk1]
+  have e2 : ((Ob a ((T a s)[k1]).1).map (·.2)).getD k2 0 = ((Ob a ((T a s)[k1]).1)[k2]).2 := by
+    simp [List.getD_eq_getElem?_getD, hk2]
+  rw [e1] at w1; rw [e2] at w2
+  obtain ⟨boxes, c, hv⟩ := mo_jointly_two
+    (fun us => ((sampleSORSparse S O T Ob R s a (us.getD 0 0) (us.getD 1 0)).1,
+        (sampleSORSparse S O T Ob R s a (us.getD 0 0) (us.getD 1 0)).2.1))
+    (((T a s)[k1]).1, ((Ob a ((T a s)[k1]).1)[k2]).1) _ _ _ _
+    (fun u1 u2 a1 a2 b1 b2 => by
+      rw [← sampleSORSparse_box S O T Ob R s a u1 u2 k1 k2 hk1 hk2 hsT hnnT hsumT hsO hnnO hsumO a1 a2 b1 b2]
+      simp only [List.getD_cons_zero, List.getD_cons_succ, Prod.mk.injEq])
+    w1 w2
+  exact ⟨boxes, c, hv.trans (by ring)⟩
+
+/-- **J6** `CooperativeModel::sampleSR(s, a)` selects the factored state `s1` with joint probability
+    `ddnTransitionProbability S A parents T s a s1` = Π_i row_i[s1_i], the value
+    `DDN::getTransitionProbability(s, a, s1)` returns (one box, side `i` = `[c_i, c_i + row_i[s1_i])`) -/
+theorem coopSampleS_selects_jointly (S A : List Nat) (parents : List ParentSet) (T : List (List (List Rat)))
+    (s a s1 : List Nat) (n : Nat)
+    (h1 : parents.length = n) (h2 : T.length = n) (h3 : s1.length = n)
+    (hrow : ∀ i, i < n →
+      (∀ x ∈ mo_coopRow S A parents T s a i, 0 ≤ x) ∧ (mo_coopRow S A parents T s a i).sum = 1)
+    (hs1 : ∀ i, i < n → s1.getD i 0 < (mo_coopRow S A parents T s a i).length) :
+    SelectsJointly n (fun us => coopSampleS S A parents T s a us) s1
+      (ddnTransitionProbability S A parents T s a s1) := by
+  let side : Nat → Rat × Rat := fun i =>
+    (cum (mo_coopRow S A parents T s a i) (s1.getD i 0),
+      cum (mo_coopRow S A parents T s a i) (s1.getD i 0) +
+        (mo_coopRow S A parents T s a i).getD (s1.getD i 0) 0)
+  have hbl : ((List.range n).map side).length = n := by simp
+  refine ⟨[(List.range n).map side], ⟨?_, ?_, List.pairwise_singleton _ _⟩, ?_⟩
+  · intro us hlen hu
+    simp only [List.mem_singleton, exists_eq_left]
+    subst hlen
+    rw [coopSampleS_box S A parents T s a us s1 (h1.trans h2.symm) h2 h3.symm hrow
+      (fun i hi => by
+        rw [mo_getD_eq_getElem _ _ _ hi]; exact hu _ (List.getElem_mem _)) hs1]
+    unfold inBox inIv
+    rw [hbl]
+    constructor
+    · intro h
+      refine ⟨rfl, fun i hi => ?_⟩
+      rw [mo_getD_map_range side (0, 0) _ i hi]
+      exact h i hi
+    · rintro ⟨_, h⟩ i hi
+      have := h i hi
+      rw [mo_getD_map_range side (0, 0) _ i hi] at this
+      exact this
+  · intro bx hb
+    rw [List.mem_singleton] at hb; subst hb
+    refine ⟨hbl, ?_⟩
+    intro iv hiv
+    simp only [List.mem_map, List.mem_range] at hiv
+    obtain ⟨i, hi, rfl⟩ := hiv
+    exact mo_iv_wf _ (hrow i hi).1 (hrow i hi).2 _ (hs1 i hi)
+  · rw [ddnTransitionProbability_eq, h1]
+    simp only [List.map_cons, List.map_nil, List.sum_cons, List.sum_nil, add_zero, boxVol, List.map_map]
+    congr 1
+    apply List.map_congr_left
+    intro i _
+    simp only [Function.comp, side]
+    ring
+
+
+/-- test (J6): one binary factor with one agent; state (1), action (0) selects row 1 = (1/2, 1/2):
+    next state (1) has probability 1/2 -/
+example : SelectsJointly 1
+    (fun us => coopSampleS [2] [2] [⟨[0], [[0], [0]]⟩] [[[1/4, 3/4], [1/2, 1/2], [1, 0], [0, 1]]] [1] [0] us)
+    [1] (1/2) := by
+  have hid : ddnGetId [2] [2] ⟨[0], [[0], [0]]⟩ [1] [0] = 1 := by decide
+  have hrow : ∀ i, i < 1 → mo_coopRow [2] [2] [⟨[0], [[0], [0]]⟩] [[[1/4, 3/4], [1/2, 1/2], [1, 0], [0, 1]]] [1] [0] i
+      = [1/2, 1/2] := by
+    intro i hi
+    obtain rfl : i = 0 := by omega
+    simp [mo_coopRow, hid]
+  have h := coopSampleS_selects_jointly [2] [2] [⟨[0], [[0], [0]]⟩] [[[1/4, 3/4], [1/2, 1/2], [1, 0], [0, 1]]]
+    [1] [0] [1] 1 rfl rfl rfl
+    (fun i hi => by rw [hrow i hi]; norm_num)
+    (fun i hi => by rw [hrow i hi]; obtain rfl : i = 0 := by omega
+                    simp)
+  have hv : ddnTransitionProbability [2] [2] [⟨[0], [[0], [0]]⟩] [[[1/4, 3/4], [1/2, 1/2], [1, 0], [0, 1]]]
+      [1] [0] [1] = 1/2 := by
+    simp [ddnTransitionProbability, hid]
+  rwa [hv] at h
+
 end AITB.Sampling
